@@ -602,8 +602,8 @@ class MathExpression(object):
         """
         bad_vars = set(var for var in self.variables_used if var not in variables)
         if bad_vars:
-            message = "Invalid Input: '{}' not permitted in answer as a variable"
             varnames = "', '".join(sorted(bad_vars))
+            message = "Invalid Input: '{}' not permitted in answer as a variable".format(varnames)
 
             # Check to see if there is a different case version of the variable
             caselist = set()
@@ -615,12 +615,12 @@ class MathExpression(object):
                 betternames = "', '".join(sorted(caselist))
                 message += " (did you mean '" + betternames + "'?)"
 
-            raise UndefinedVariable(message.format(varnames))
+            raise UndefinedVariable(message)
 
         bad_funcs = set(func for func in self.functions_used if func not in functions)
         if bad_funcs:
             funcnames = "', '".join(sorted(bad_funcs))
-            message = "Invalid Input: '{}' not permitted in answer as a function"
+            message = "Invalid Input: '{}' not permitted in answer as a function".format(funcnames)
 
             # Check to see if there is a corresponding variable name
             if any(func in variables for func in bad_funcs):
@@ -636,12 +636,13 @@ class MathExpression(object):
                 betternames = "', '".join(sorted(caselist))
                 message += " (did you mean '" + betternames + "'?)"
 
-            raise UndefinedFunction(message.format(funcnames))
+            raise UndefinedFunction(message)
 
         bad_suffixes = set(suff for suff in self.suffixes_used if suff not in suffixes)
         if bad_suffixes:
             bad_suff_names = "', '".join(sorted(bad_suffixes))
-            message = "Invalid Input: '{}' not permitted directly after a number"
+            message = ("Invalid Input: '{}' not permitted directly after a number"
+                       .format(bad_suff_names))
 
             # Check to see if there is a corresponding variable name
             if any(suff in variables for suff in bad_suffixes):
@@ -657,7 +658,7 @@ class MathExpression(object):
                 betternames = "', '".join(sorted(caselist))
                 message += " (did you mean '" + betternames + "'?)"
 
-            raise UndefinedFunction(message.format(bad_suff_names))
+            raise UndefinedFunction(message)
 
     def eval(self, variables, functions, suffixes, allow_inf=False):
         """
